@@ -303,6 +303,19 @@ def gen_case(rng, tier, k):
                                f"do file_delete({q(p0)}); make_dir({q(p0)});"
                                f" end"])
             scenario = [use, gone, use]
+            if rng.random() < 0.3:
+                # two live handles on one file: read it while appending
+                hi, ho = new_handle("in"), new_handle("out")
+                scenario = [
+                    f"def {hi} = file_input({q(PATHS['text'])})",
+                    f"def {ho} = file_output({q(PATHS['text'])}, 'utf-8', "
+                    f"TRUE)",
+                    rng.choice([
+                        f"for line in {hi} do println(line, {ho}); end",
+                        f"process_lines({hi}, fn(line) println(line, {ho}))"
+                    ]),
+                    f"close({ho})", f"string({ho})",
+                    f"println('x', {ho})", f"string([1, {ho}])"]
         wrapped = rng.random() < 0.5
         faults = []
         if rng.random() < fault_rate:
@@ -349,6 +362,14 @@ def gen_case(rng, tier, k):
             ops.append({"kind": "clock", "jump": rng.choice(
                 [-86400 * 365 * 20, -3600, 3600, 86400 * 365 * 30])})
     ops.append({"kind": "health"})
+    # how the host/script configured the module path (run() and require
+    # may look at it): undefined, a proper list, or something malformed
+    mp = rng.choice([None, None, "['/sim/d/sub']", "'/sim/d/sub'", "NULL",
+                     "['/sim/d/sub', NULL, 5]", "5"])
+    if mp is not None:
+        ops.insert(0, {"kind": "op", "name": "config",
+                       "src": "def checkerlang_module_path = " + mp,
+                       "pk": "-", "wrapped": False, "faults": []})
     return {"config": {"prng": 0.5,
                        "listdir_perm": rng.choice([None, None,
                                                    rng.randrange(1000)]),
